@@ -15,6 +15,7 @@ import (
 	"github.com/NethermindEth/juno/feed"
 	"github.com/NethermindEth/juno/jsonrpc"
 	rpcv10 "github.com/NethermindEth/juno/rpc/v10"
+	rpcv8 "github.com/NethermindEth/juno/rpc/v8"
 	rpcv9 "github.com/NethermindEth/juno/rpc/v9"
 	junosync "github.com/NethermindEth/juno/sync"
 	"github.com/NethermindEth/juno/utils/log"
@@ -242,7 +243,7 @@ func (w *World) oneSubscription(parent context.Context, ss *subSync, api subAPI,
 			deliver(blk)
 			time.Sleep(gap)
 		}
-		deadline := time.Now().Add(20 * time.Second)
+		deadline := time.Now().Add(120 * time.Second)
 		for time.Now().Before(deadline) {
 			deliver(w.mkFeedBlock(markerBase+seq+1, markerPlan(f)))
 			time.Sleep(gap)
@@ -264,7 +265,7 @@ func (w *World) oneSubscription(parent context.Context, ss *subSync, api subAPI,
 	// 1. historical replay: everything before the first marker
 	hist, ok := send(nil, 2*time.Millisecond)
 	if !ok {
-		w.Res.Violate(lib.Violation{Sig: "event-subscription-delivers-nothing", What: fmt.Sprintf("%s: no notification for a matching new head within 20 s (filter %v)", api.name, f), Replay: rep(nil)})
+		w.Res.Violate(lib.Violation{Sig: "event-subscription-delivers-nothing", What: fmt.Sprintf("%s: no notification for a matching new head within 120 s (filter %v)", api.name, f), Replay: rep(nil)})
 		return
 	}
 	var got []string
@@ -312,7 +313,7 @@ func (w *World) oneSubscription(parent context.Context, ss *subSync, api subAPI,
 		for _, gap := range []time.Duration{2 * time.Millisecond, 40 * time.Millisecond, 400 * time.Millisecond} {
 			msgs, ok := send(blk, gap)
 			if !ok {
-				w.Res.Violate(lib.Violation{Sig: "event-subscription-stalls", What: fmt.Sprintf("%s: no marker notification within 20 s", api.name), Replay: rep(plan)})
+				w.Res.Violate(lib.Violation{Sig: "event-subscription-stalls", What: fmt.Sprintf("%s: no marker notification within 120 s", api.name), Replay: rep(plan)})
 				return
 			}
 			last = nil
@@ -355,6 +356,83 @@ func (w *World) oneSubscription(parent context.Context, ss *subSync, api subAPI,
 		if !okBlock {
 			w.Res.Violate(lib.Violation{Sig: "event-subscription-live-events-differ",
 				What: fmt.Sprintf("%s (pre_confirmed=%v): filter %v, block with events %v: notified %v, matching events are %v", api.name, pre, f, plan, last, want), Replay: rep(plan)})
+		}
+	}
+}
+
+// runSubscriptionsV8: rpc v8 reads the events of new heads from the DATABASE (EventFilter over
+// [next block, new head]), so the blocks are really stored; a head notification that was overwritten
+// in a feed is made up by the next one (the range covers it), which makes the marker exact here.
+func (w *World) runSubscriptionsV8(filters []Filt) {
+	if len(w.Chain) == 0 {
+		return
+	}
+	ss := &subSync{heads: feed.New[*core.Block](), pre: feed.New[*pending.PreConfirmed]()}
+	h := rpcv8.New(w.Node.BC, ss, nil, log.NewNopZapLogger())
+	ctx, cancel := context.WithCancel(context.Background())
+	defer cancel()
+	go func() { _ = h.Run(ctx) }()
+	for fi, f := range filters {
+		if len(f.Addrs) > 1 {
+			continue
+		}
+		from := fi % len(w.Chain)
+		sctx, scancel := context.WithCancel(ctx)
+		conn := &subConn{ctx: sctx}
+		addrs, keys := f.real()
+		var addr *felt.Address
+		if len(addrs) > 0 {
+			addr = &addrs[0]
+		}
+		id := rpcv8.SubscriptionBlockID(rpcv8.BlockIDFromNumber(uint64(from)))
+		if _, rerr := h.SubscribeEvents(context.WithValue(sctx, jsonrpc.ConnKey{}, conn), addr, keys, &id); rerr != nil {
+			w.Res.Violate(lib.Violation{Sig: "event-subscription-refused", What: fmt.Sprintf("v8: subscribeEvents(%v, from %d): %d %s", f, from, rerr.Code, rerr.Message),
+				Replay: map[string]any{"history": w.replay(), "filter": f}})
+			scancel()
+			continue
+		}
+		w.Res.Hit("subscription:v8")
+		// a block under test and the marker block are stored, then announced
+		w.do(Op{Kind: "store", Plan: exPlans[fi%len(exPlans)], N: 1})
+		w.do(Op{Kind: "store", Plan: markerPlan(f), N: 1})
+		marker := len(w.Chain) - 1
+		want := emsString(naive(w.Chain, f, from, marker))
+		got, ok := "", false
+		deadline := time.Now().Add(120 * time.Second)
+		for time.Now().Before(deadline) && !ok {
+			ss.heads.Send(w.Bundles[marker-1].Block)
+			time.Sleep(2 * time.Millisecond)
+			ss.heads.Send(w.Bundles[marker].Block)
+			time.Sleep(5 * time.Millisecond)
+			var ems []Em
+			for _, m := range conn.snapshot(0) {
+				b := int(m.Block)
+				t := -1
+				if b < len(w.Bundles) {
+					for ti, rc := range w.Bundles[b].Block.Receipts {
+						if rc.TransactionHash.String() == m.TxHash {
+							t = ti
+						}
+					}
+				}
+				ems = append(ems, Em{b, t, m.EvIdx})
+				if b == marker {
+					ok = true
+				}
+			}
+			got = emsString(ems)
+		}
+		scancel()
+		w.Res.Hit("subscription:v8-checked")
+		if !ok {
+			w.Res.Violate(lib.Violation{Sig: "event-subscription-delivers-nothing", What: fmt.Sprintf("v8: no notification for the stored marker block within 120 s (filter %v); received %s", f, got),
+				Replay: map[string]any{"history": w.replay(), "filter": f, "api": "v8"}})
+			continue
+		}
+		if got != want {
+			w.Res.Violate(lib.Violation{Sig: "event-subscription-v8-events-differ",
+				What:   fmt.Sprintf("v8: subscribeEvents(%v) from block %d notified %s, the chain has %s", f, from, got, want),
+				Replay: map[string]any{"history": w.replay(), "filter": f, "api": "v8", "from": from}})
 		}
 	}
 }
